@@ -64,7 +64,7 @@ pub fn spec() -> PropSpec {
     PropSpec {
         id: "C07",
         level: "exploration",
-        rule: "message sequences as in C01 (palette generator, chunk-size changes, flags); the concatenated packets are parsed by RefChunkDec in strict mode (legal minimal csids, extended field exactly when the 24-bit field is 0xFFFFFF and never below it, format 1/2 never inside a message, format-0 continuation only when identical, Set Chunk Size legal and on csid 2 / stream 0, nothing left over) and must yield exactly the input messages; packet boundaries must coincide with message boundaries. Non-trivial = >= 2 messages and (a compressed header or a multi-chunk message or a chunk-size change); distinct = distinct sequence",
+        rule: "message sequences as in C01 (palette generator, chunk-size changes, flags; sub-check 'many-message-streams': 28..700 message streams with one video and one audio message each on one serializer, then more on earlier streams); the concatenated packets are parsed by RefChunkDec in strict mode (legal minimal csids, extended field exactly when the 24-bit field is 0xFFFFFF and never below it, format 1/2 never inside a message, format-0 continuation only when identical, Set Chunk Size legal and on csid 2 / stream 0, nothing left over) and must yield exactly the input messages; packet boundaries must coincide with message boundaries. Non-trivial = >= 2 messages and (a compressed header or a multi-chunk message or a chunk-size change); distinct = distinct sequence",
         assumptions: vec![
             "RefChunkDec is trusted as the transcription of RTMP 1.0 section 5.3.1",
             "a format-0 header on a continuation chunk (what force_uncompressed produces) is conformant when all its fields equal the message it continues (the specification says SHOULD use format 3)",
@@ -74,6 +74,7 @@ pub fn spec() -> PropSpec {
                 let cfg = SeqCfg { max_ops: if ctx.tier == Tier::Thorough { 40 } else { 12 }, ..SeqCfg::DEFAULT };
                 gen::msg_seq(cfg).prop_map(|seq| Case { seq }).boxed()
             }, 200_000, 5_000_000, eval),
+            PropCheck::new("many-message-streams", |_| gen::msg_seq_many_msids().prop_map(|seq| Case { seq }).boxed(), 600, 20_000, eval),
             EnumCheck::new("large", false, large_cases, eval),
         ],
     }
